@@ -11,7 +11,8 @@
    trace of a thread that calls frontend methods any number of times (complete, aborted by an
    exception at any point, or still in progress - so every prefix of every run is covered). *)
 From Coq Require Import List String Bool.
-From NV Require Import Skel.LockSyntax Skel.LockCheck Gen.FrontendSkel Bridge.C15Skel.
+From NV Require Import Skel.LockSyntax Skel.LockCheck Gen.FrontendSkel Bridge.C15Skel
+  Skel.DriverPolicy Gen.DriverScan Bridge.C15Drivers.
 Import ListNotations.
 Local Open Scope list_scope.
 
@@ -71,6 +72,14 @@ Theorem C15_frontend_safe : forall g,
 Proof. exact frontend_threads_safe. Qed.
 Print Assumptions C15_frontend_safe.
 
+(* --- the reading of `Dev m` as "the driver works in the calling thread between DevBegin and DevEnd"
+       is justified for the driver modules regenerated facts: whitelisted imports only, no thread /
+       timer / executor / event-loop / signal / exit-hook / finaliser construct anywhere under
+       src/nfc/clf/ (policy: Skel/DriverPolicy.v) --- *)
+Theorem C15_drivers_synchronous : drivers_ok driver_modules driver_imports driver_flags = true.
+Proof. exact drivers_synchronous. Qed.
+Print Assumptions C15_drivers_synchronous.
+
 (* --- non-vacuity: two threads calling close() on the fresh frontend, interleaved as the mutex
        allows, satisfy all hypotheses; and the checker does reject an unlocked driver call --- *)
 Example C15_nonvacuous :
@@ -80,7 +89,10 @@ Example C15_nonvacuous :
   chk (fun _ => None) 10 false false (Seq (IfDev Skip Ret) (Dev "mute")) = None /\
   chk (fun _ => None) 10 false false (WithLock (Dev "mute")) = None /\
   chk (fun _ => None) 10 false false (WithLock (Seq (IfDev Skip Ret) (Seq (Ext "callback") (Dev "mute")))) = None /\
-  (exists r, chk (fun _ => None) 10 false false (WithLock (Seq (IfDev Skip Ret) (Dev "mute"))) = Some r).
+  (exists r, chk (fun _ => None) 10 false false (WithLock (Seq (IfDev Skip Ret) (Dev "mute"))) = Some r) /\
+  drivers_ok expected_modules [("acr122.py", "threading")] [] = false /\
+  drivers_ok expected_modules [] [("acr122.py", "136", "attribute threading.Timer")] = false /\
+  drivers_ok ["acr122.py"] [] [] = false.
 Proof.
   cbv zeta. split; [vm_compute; reflexivity|]. split; [vm_compute; reflexivity|]. split.
   - intro t. destruct t as [|[|t]].
